@@ -456,6 +456,8 @@ def judge(res, sess, strobes, bytes_seen, n_cycles):
                 prev_known_tail = (p["sub"], S[-1][0], "second_report")
             elif (p["kind"] == "crafted_no_crc" and kinds and kinds[0] == "G"):
                 mech = "good_when_crc_field_holds_end_framing"
+                if len(S) >= 2 and consecutive and kinds[-1] == "B":
+                    prev_known_tail = (p["sub"], S[-1][0], "good_then_bad")
             elif (exp == "good" and len(S) >= 2 and consecutive and tc is not None and S[0][0] >= tc
                   and set(kinds[:-1]) == {"G"} and kinds[-1] == "B"):
                 mech = "good_then_bad_next_cycle"
